@@ -271,6 +271,7 @@ pub fn replay(path: &Path, workdir: &Path) {
 pub fn generate(out: &mut Out, rng: &Prng, thorough: bool, workdir: &Path) {
     let n = if thorough { 6000 } else { 600 };
     let mut rig = Rig::start(workdir, "met");
+    let mut live: Option<crate::liveobs::LiveRig> = None;
     for i in 0..n {
         // float rendering of the model against Rust's
         for _ in 0..4 {
@@ -316,6 +317,40 @@ pub fn generate(out: &mut Out, rng: &Prng, thorough: bool, workdir: &Path) {
             rig.stop();
             rig = Rig::start(workdir, &format!("met{i}"));
         }
+        // every fourth state also goes the daemon's own way: published into the watch channel of the real observer
+        // task, which stamps the program data and writes the document when the exporter connects
+        if i % 4 == 0 {
+            if live.is_none() {
+                live = crate::liveobs::LiveRig::start(workdir, &format!("live{i}"), &st);
+                if live.is_none() {
+                    out.oracle("C19", "observer-task-does-not-start", &format!("{op} -> statime_linux::observer::spawn did not bring up its socket"));
+                }
+            }
+            if let Some(l) = live.as_mut() {
+                match l.scrape(&st) {
+                    Some((op2, obs2, findings)) => {
+                        out.count("met.through-real-observer");
+                        for (sig, detail) in findings {
+                            out.oracle("C19", &sig, &format!("{op2} -> (through the daemon's observer task) {detail}"));
+                        }
+                        let bad = !obs2.starts_with("resp ");
+                        out.op(&op2, &obs2);
+                        if bad || l.exp.exited().is_some() {
+                            out.count("met.live-rig-restarted");
+                            if let Some(l) = live.take() {
+                                l.stop();
+                            }
+                        }
+                    }
+                    None => {
+                        out.oracle("C19", "state-not-representable", &format!("{op} -> not accepted by the observer's data types"));
+                    }
+                }
+            }
+        }
     }
     rig.stop();
+    if let Some(l) = live {
+        l.stop();
+    }
 }
